@@ -337,3 +337,29 @@ prop("C17", "c17",
            "over all mechanism types; bounded exploration.",
      note="Trusted: the race detector; the scripted remote side.",
      technique="property-based testing: metamorphic order-independence + -race stress")
+
+prop("C18", "c18",
+     "State machines per provider, in lock step with a reference model (source -> latest valid content; empty / missing / "
+     "404 / 500 unloads; syntactically invalid content and communication failures keep the previous version; a rule set the "
+     "factory rejects is attempted and leaves the previous version active). File system: real files in a temp dir (write valid "
+     "v1-v3 / unchanged / empty / unparsable / semantically invalid content, remove, move away); the fsnotify events of every "
+     "change (Create, Write, Chmod, Remove, Rename) are delivered synchronously to the provider's event handler, duplicated, "
+     "delayed and reordered, with inotify's guarantee that the last event of a path is delivered last. HTTP endpoint: a "
+     "scripted server answers each poll ok / changed / unchanged / empty / unparsable / rejected / 404 / 500 / connection "
+     "reset. Cloud blob: objects of a file-backed bucket (gocloud fileblob) appear, change, become empty / invalid, disappear; "
+     "one poll lists the bucket. Kubernetes: RuleSet objects are driven through the informer's filtering event handler (add / "
+     "update with generation bump / metadata-only update / resync / auth-class change / delete) against a fake API server. "
+     "Oracle after every delivered event or poll: the calls recorded at a processor in front of the real processor equal the "
+     "model's (each content change applied exactly once, unchanged content never), and the rule set versions the repository "
+     "really matches equal the model. Non-trivial: the history contains an empty / invalid / rejected version, a "
+     "disappearance, a duplicate, delayed or out-of-order notification; distinct by history.",
+     [dict(run="^TestFileSystemProviderConverges$", quick=300, thorough=3000, shards_thorough=4),
+      dict(run="^TestHTTPEndpointProviderConverges$", quick=300, thorough=3000, shards_thorough=4),
+      dict(run="^TestCloudBlobProviderConverges$", quick=200, thorough=2000, shards_thorough=4),
+      dict(run="^TestKubernetesProviderConverges$", quick=300, thorough=3000, shards_thorough=4)],
+     ["client-go's informer machinery, real inotify timing, real S3/GCS/Azure and gocron scheduling are outside the harness: "
+      "events and polls are delivered synchronously", "cloud blob: a poll that meets an undecodable or rejected object is don't-care for the other objects of that poll",
+      "network failures keep the previous version (documented for the http_endpoint and cloud_blob providers)"],
+     level="Model-based (stateful) randomised search per provider, lock step with a reference model; bounded exploration.",
+     note="Trusted: gocloud fileblob as bucket implementation, client-go's FilteringResourceEventHandler, the fake API server.",
+     technique="stateful property-based testing: lock-step reference model over event/poll histories")
